@@ -64,6 +64,13 @@ func (d *dialer) Dial() (transport.Pipe, error) {
 }
 
 // SetOption implements Dialer SetOption method.
+// Close aborts connection attempts still shaking hands.  The core dialer
+// calls it when it is closed; nothing is dialed afterwards.
+func (d *dialer) Close() error {
+	d.hs.Close()
+	return nil
+}
+
 func (d *dialer) SetOption(n string, v interface{}) error {
 	d.lock.Lock()
 	defer d.lock.Unlock()
